@@ -9,6 +9,8 @@ Copy i uses two letters (p, q); the kinds of classes of a copy:
   bD = q D      C = X + bD             (variant F: bD = q X, no reverse rule needed)
   variant Q: C = Aq + Y + gPq with Aq = (p|q)*q only obtainable as the quotient Pq / Ps of the product Pq = Aq x Ps
              (Pq = words containing q, Ps = p*: the sibling is not an atom, the counted class has minimum size 1; gPq = g Pq)
+  variant M: C = the words over (p|q) with one marked (upper-case) letter -> (A) with A = (p|q)*, by the constructor
+             `Pointing` (count n * a_n): one child object corresponds to n parent objects (the backward map is not injective)
   variant S: C = (p|q)+ = X + swap(X): a union rule with the *same* child class twice, told apart by the child index only
 Root R = g + C1 + ... + Ck  (`g` a one-letter atom). Everything the oracle needs is generated directly from these
 definitions (`words`), independently of the library. The classes duck-type upword.PW for the shared helpers
@@ -23,7 +25,8 @@ from comb_spec_searcher import (
     DisjointUnionStrategy,
     StrategyPack,
 )
-from comb_spec_searcher.strategies.strategy import VerificationStrategy
+from comb_spec_searcher.strategies.constructor.base import Constructor
+from comb_spec_searcher.strategies.strategy import Strategy, VerificationStrategy
 from upword import W
 
 LETTERS = [("a", "b"), ("c", "d"), ("e", "f")]
@@ -66,7 +69,11 @@ def _words(name, n, sig):
         return [t for t in _tails(p, q, n) if q in t]
     if kind == "gPq":
         return ["g" + t for t in _words("Pq" + k, n - 1, sig)] if n >= 1 else []
+    if kind == "A":
+        return list(_tails(p, q, n))
     if kind == "C":
+        if v == "M":
+            return [w[:i] + w[i].upper() + w[i + 1:] for w in _tails(p, q, n) for i in range(n)]
         if v == "Q":
             return _words("Aq" + k, n, sig) + _words("Y" + k, n, sig) + _words("gPq" + k, n, sig)
         if v == "S":
@@ -207,6 +214,66 @@ class GSym(_Table, DisjointUnionStrategy):
             yield self._swap(c, objs[1])
 
 
+class Pointing(Constructor):
+    """parent objects = child objects with one marked position: p_n = n * c_n"""
+
+    def get_equation(self, lhs_func, rhs_funcs):
+        import sympy
+
+        x = sympy.var("x")
+        return sympy.Eq(lhs_func, x * sympy.diff(rhs_funcs[0], x))
+
+    def reliance_profile(self, n, **parameters):
+        return ({"n": (n,)},)
+
+    def get_terms(self, parent_terms, subterms, n):
+        return Counter({k: n * v for k, v in subterms[0](n).items() if n * v})
+
+    def get_sub_objects(self, subobjs, n):
+        for param, objs in subobjs[0](n).items():
+            yield param, (objs,)
+
+    def random_sample_sub_objects(self, parent_count, subsamplers, subrecs, n, **parameters):
+        return (subsamplers[0](n=n, **parameters),)
+
+    def equiv(self, other, data=None):
+        return isinstance(other, Pointing), None
+
+    def __str__(self):
+        return "pointing"
+
+
+class GPoint(_Table, Strategy):
+    def can_be_equivalent(self):
+        return False
+
+    def is_two_way(self, comb_class):
+        return False
+
+    def is_reversible(self, comb_class):
+        return False
+
+    def shifts(self, comb_class, children=None):
+        return (0,)
+
+    def constructor(self, comb_class, children=None):
+        return Pointing()
+
+    def reverse_constructor(self, idx, comb_class, children=None):
+        raise NotImplementedError
+
+    def formal_step(self):
+        return "mark a letter"
+
+    def backward_map(self, c, objs, children=None):
+        w = str(objs[0])
+        for i in range(len(w)):
+            yield W(w[:i] + w[i].upper() + w[i + 1:])
+
+    def forward_map(self, c, obj, children=None):
+        return (W(str(obj).lower()),)
+
+
 class GBrute(VerificationStrategy):
     """verifies the named kinds; brute-force terms; no pack"""
 
@@ -254,10 +321,13 @@ class GBrute(VerificationStrategy):
 
 def inner_pack(sig):
     union, prod = {}, {}
-    sym = {}
+    sym, point = {}, {}
     for k, v in ((str(i), x) for i, x in enumerate(sig)):
         if v == "S":
             sym["C" + k] = ("X" + k,)
+            continue
+        if v == "M":
+            point["C" + k] = ("A" + k,)
             continue
         if v == "Q":
             union["C" + k] = ("Aq" + k, "Y" + k, "gPq" + k)
@@ -273,8 +343,8 @@ def inner_pack(sig):
             prod["bD" + k] = ("T" + k, "D" + k)
         else:
             prod["bD" + k] = ("T" + k, "X" + k)
-    return StrategyPack(initial_strats=[GUnion(union), GProd(prod), GSym(sym)], inferral_strats=[], expansion_strats=[],
-                        ver_strats=[AtomStrategy(), GBrute(["X", "Pq", "Ps"])], name="inner")
+    return StrategyPack(initial_strats=[GUnion(union), GProd(prod), GSym(sym), GPoint(point)], inferral_strats=[], expansion_strats=[],
+                        ver_strats=[AtomStrategy(), GBrute(["X", "Pq", "Ps", "A"])], name="inner")
 
 
 class GPackVer(GBrute):
@@ -295,7 +365,7 @@ def build(cfg):
     if cfg.get("gram_flat"):  # the inner strategies applied directly: no class verified with a pack
         inner = inner_pack(sig)
         flat = StrategyPack(initial_strats=[GUnion({"R": ("G",) + tuple("C" + str(k) for k in range(len(sig)))})] + list(inner.initial_strats),
-                            inferral_strats=[], expansion_strats=[], ver_strats=[AtomStrategy(), GBrute(["X", "Pq", "Ps"])], name="flat")
+                            inferral_strats=[], expansion_strats=[], ver_strats=[AtomStrategy(), GBrute(["X", "Pq", "Ps", "A"])], name="flat")
         if cfg["db"] == "RuleDBForest":
             from comb_spec_searcher.rule_db import RuleDBForest
 
